@@ -166,6 +166,7 @@ type HarnessSpec struct {
 	Note      string // bounds in words
 	GoQueue   bool
 	AbstractBig bool // allocations of non-constant size become length-abstracted arrays (contents not tracked)
+	HookLimit int // how many times vOnBlock may run at one blocking point
 	NoDedupe  bool // map range: do not de-duplicate keys (only for idempotent set-algebra loops, stated as a cut)
 	Solvers   []string
 	CaseGen   func() []map[string]int64 `json:"-"` // case split given as an explicit list (alternative to Split)
@@ -201,7 +202,7 @@ func newEngine(l *loaded, hs HarnessSpec) *Engine {
 		maxDepth: 60, maxUnwind: 8, maxRecur: 8, defaultCap: 16,
 		unwindFor: map[string]int{}, recurFor: map[string]int{},
 		globals: map[*ssa.Global]*Object{}, nondets: map[string]*Nondet{}, replace: map[string]*ssa.Function{}, noops: map[string]bool{},
-		active: map[*ssa.Function]int{}, funcsSeen: map[string]bool{}, fset: l.prog.Fset, initDone: map[*ssa.Package]bool{},
+		active: map[*ssa.Function]int{}, funcsSeen: map[string]bool{}, fset: l.prog.Fset, initDone: map[*ssa.Package]bool{}, verifInitDone: map[*ssa.Package]bool{},
 	}
 	if hs.Unwind > 0 {
 		e.maxUnwind = hs.Unwind
@@ -257,6 +258,10 @@ func newEngine(l *loaded, hs HarnessSpec) *Engine {
 	}
 	e.goQueue = hs.GoQueue
 	e.rangeNoDedupe = hs.NoDedupe
+	e.hookLimit = 4
+	if hs.HookLimit > 0 {
+		e.hookLimit = hs.HookLimit
+	}
 	e.abstractBig = hs.AbstractBig
 	without := map[string]bool{}
 	for _, w := range hs.Without {
